@@ -213,10 +213,12 @@ def run(ctx):
         coverage_guard(ctx, d, "MCSpinAsm", "MCSpinAsmF2TSOPlainRel", {"XchgWrite", "Env"})
     # ---- leg M, instruction level, on the table extracted from the current sources
     if q:
-        cfgs = [("MCSpinAsmQ3", 600), ("MCSpinAsmQ2Live", 900), ("MCSpinAsmQ2TSO", 600)]
+        cfgs = [("MCSpinAsmQ1", 300), ("MCSpinAsmQ3", 600), ("MCSpinAsmQ2Live", 900), ("MCSpinAsmQ2TSO", 600)]
         muts = ["MCSpinAsmBug_XchgNotAtomic", "MCSpinAsmBug_BufferNotFifo"]
     else:
-        cfgs = [("MCSpinAsmF3", 1500), ("MCSpinAsmQ3NoYield", 600), ("MCSpinAsmQ3Env", 600), ("MCSpinAsmF2Mod", 900),
+        cfgs = [("MCSpinAsmQ1", 300), ("MCSpinAsmQ3Att0", 600), ("MCSpinAsmQ3Att3", 600), ("MCSpinAsmQ2LiveAtt0", 900),
+                ("MCSpinAsmF3", 1500), ("MCSpinAsmF3NoYield", 1500), ("MCSpinAsmF3Env", 1500),
+                ("MCSpinAsmQ3NoYield", 600), ("MCSpinAsmQ3Env", 600), ("MCSpinAsmF2Mod", 900),
                 ("MCSpinAsmQ2Live", 900), ("MCSpinAsmQ2EnvLive", 900), ("MCSpinAsmF3Live", 900), ("MCSpinAsmF4", 900),
                 ("MCSpinAsmF3TSO", 900), ("MCSpinAsmQ2TSO", 600)]
         muts = ["MCSpinAsmBug_XchgNotAtomic", "MCSpinAsmBug_BufferNotFifo"]
@@ -260,8 +262,8 @@ def dynamic_legs(ctx, d, q):
     with open(cases) as f:
         lines = sorted(set(l for l in f if l.strip()))
     total = len(lines)
-    if q and total > 1000:
-        lines = random.Random(ctx.seed).sample(lines, 1000)
+    if q and total > 800:
+        lines = random.Random(ctx.seed).sample(lines, 800)
     def blocking(line):
         # number of Acquire calls that have to wait (not followed at once by their own await): schedules without
         # waiting calls are replayed first, so that a lock that never lets a waiter in cannot hide what the
@@ -298,6 +300,15 @@ def dynamic_legs(ctx, d, q):
                                 env={"TRACE_OUT": tr2, "NWIN": nwin, "NOPS": nops}, timeout=900)
         if rc != 0 or not os.path.exists(tr2):
             raise vlib.Broken("spinlock stress harness failed:\n" + out[-3000:])
+        if os.path.exists(tr2 + ".shapes"):
+            with open(tr2 + ".shapes") as f:
+                shapes = json.load(f)
+            dims = {}
+            for sh in shapes:
+                for k, v in sh.items():
+                    dims.setdefault(k, {})
+                    dims[k][str(v)] = dims[k].get(str(v), 0) + 1
+            ctx.cov["legs"]["T-window-shapes"] = dims
         mism, stuck, acc = validate(ctx, "T-stress", tr2, par)
         report(ctx, "T", mism, lambda m: {"kind": "stress", "seed": ctx.seed, "nwin": nwin, "nops": nops,
                                           "note": "real-thread schedule: re-running the seed repeats the inputs, not necessarily the interleaving",
